@@ -18,6 +18,7 @@ import (
 
 	"verifharness/fb"
 	"net"
+	"sort"
 
 	"verifharness/gen"
 	"verifharness/hv"
@@ -301,9 +302,27 @@ func genForward(ctx *Ctx, prop string) {
 			be.SetScript(tok, fb.Outcome{Kind: fb.ErrMsg, Hold: hold, Msg: &message.ReadTimeout{ErrorMessage: "scripted", Consistency: primitive.ConsistencyLevelQuorum, Received: 2, BlockFor: 2, DataPresent: false}},
 				fb.Outcome{Kind: fb.RawReply, RawFlags: rflags, RawOpcode: ropcode, RawBody: rbody})
 		} else {
-			be.SetScript(tok, fb.Outcome{Kind: fb.RawReply, RawFlags: rflags, RawOpcode: ropcode, RawBody: rbody})
+			out := fb.Outcome{Kind: fb.RawReply, RawFlags: rflags, RawOpcode: ropcode, RawBody: rbody}
+			if r.Intn(5) == 0 {
+				// the answer reaches the proxy in several TCP segments: inside the header, at the header's end, inside the body
+				out.Pieces = cutPoints(r, 9+len(rbody))
+				ctx.Count("response-arrives-in-segments")
+			}
+			be.SetScript(tok, out)
 		}
-		_ = cl.SendRaw(sent)
+		if r.Intn(5) == 0 {
+			// ... and so does the request
+			from := 0
+			for _, e := range cutPoints(r, len(sent)) {
+				_ = cl.SendRaw(sent[from:e])
+				from = e
+				time.Sleep(300 * time.Microsecond)
+			}
+			_ = cl.SendRaw(sent[from:])
+			ctx.Count("request-arrives-in-segments")
+		} else {
+			_ = cl.SendRaw(sent)
+		}
 		if hold != nil {
 			p.stream = (p.stream+1)%30000 + 1
 			st2 := p.stream
@@ -437,6 +456,7 @@ func genForward(ctx *Ctx, prop string) {
 	}
 	if prop == "C03" {
 		pipelinedLarge(ctx, be, withList)
+		connioPhase(ctx)
 	}
 }
 
@@ -517,6 +537,31 @@ func pipelinedLarge(ctx *Ctx, be *fb.Backend, p *fwProxy) {
 			}
 		}
 	}
+}
+
+// cutPoints: one to four ascending offsets strictly inside a frame of n bytes, biased towards the header and its end
+func cutPoints(r *hv.Rng, n int) []int {
+	set := map[int]bool{}
+	for k := 1 + r.Intn(4); k > 0; k-- {
+		var c int
+		switch r.Intn(3) {
+		case 0:
+			c = 1 + r.Intn(9)
+		case 1:
+			c = 9
+		default:
+			c = 1 + r.Intn(n)
+		}
+		if c > 0 && c < n {
+			set[c] = true
+		}
+	}
+	var out []int
+	for c := range set {
+		out = append(out, c)
+	}
+	sort.Ints(out)
+	return out
 }
 
 func md5Of(s string) []byte {
